@@ -152,53 +152,26 @@ Qed.
 Definition nil_mono (txs' txs : list (option txid)) : Prop :=
   forall j, nth_error txs' j = Some None -> nth_error txs j = Some None.
 
-(** the second loop either completes (same length, nil slots only shrink) or
-    panics at the group-expansion statement, provided its indices are valid *)
+(** the second loop completes (same length, nil slots only shrink) provided its
+    indices are valid: the bound test keeps every group inside the slice *)
 Lemma fill_res : forall p nd txs ok lo shs,
   Forall (nd_ok lo (length txs) shs) nd ->
-  (exists txs' ok', fill p nd txs ok = Ok (txs', ok') /\ length txs' = length txs /\ nil_mono txs' txs)
-  \/ fill p nd txs ok = Panic W_GROUP.
-Proof.
-  induction nd as [|[index h] nd IH]; intros txs ok lo shs F; simpl.
-  - left. exists txs, ok. split; [reflexivity|]. split; [reflexivity|]. intros j Hj; exact Hj.
-  - inversion F as [|x l [Hs Hr] F']; subst. simpl in *.
-    destruct (nth_error txs index) as [[t|]|] eqn:En.
-    + eapply IH; eauto.
-    + destruct (pool_get h p) as [e|]; [|eapply IH; eauto].
-      destruct (set_nth_some _ txs index (Some (px_id e))) as [t1 E1]; [lia|]. rewrite E1.
-      pose proof (set_nth_length _ _ _ _ _ E1) as L1.
-      destruct (put_members_res (members e) t1 index) as [[t2 [E2 [L2 M2]]]|P].
-      * rewrite E2.
-        destruct (IH t2 ok lo shs) as [[t3 [ok' [E3 [L3 M3]]]]|P3].
-        { rewrite L2, L1. exact F'. }
-        { left. exists t3, ok'. split; [exact E3|]. split; [lia|].
-          intros j Hj. eapply set_nth_nil_mono; [exact E1|]. apply M2. apply M3. exact Hj. }
-        { right. exact P3. }
-      * rewrite P. right. reflexivity.
-    + apply nth_error_None in En. lia.
-Qed.
-
-(** with groups that fit, the second loop completes *)
-Lemma fill_ok : forall p nd txs ok lo shs,
-  Forall (nd_ok lo (length txs) shs) nd ->
-  (forall i k e, nth_error shs i = Some k -> pool_get k p = Some e ->
-                 (i + length (members e) <= length txs)%nat) ->
   exists txs' ok', fill p nd txs ok = Ok (txs', ok') /\ length txs' = length txs /\ nil_mono txs' txs.
 Proof.
-  induction nd as [|[index h] nd IH]; intros txs ok lo shs F Fit; simpl.
+  induction nd as [|[index h] nd IH]; intros txs ok lo shs F; simpl.
   - exists txs, ok. split; [reflexivity|]. split; [reflexivity|]. intros j Hj; exact Hj.
   - inversion F as [|x l [Hs Hr] F']; subst. simpl in *.
     destruct (nth_error txs index) as [[t|]|] eqn:En.
     + eapply IH; eauto.
-    + destruct (pool_get h p) as [e|] eqn:Ep; [|eapply IH; eauto].
+    + destruct (pool_get h p) as [e|]; [|eapply IH; eauto].
+      destruct (length txs <? index + length (members e))%nat eqn:Eb; [eapply IH; eauto|].
+      apply Nat.ltb_ge in Eb.
       destruct (set_nth_some _ txs index (Some (px_id e))) as [t1 E1]; [lia|]. rewrite E1.
       pose proof (set_nth_length _ _ _ _ _ E1) as L1.
-      destruct (put_members_ok (members e) t1 index) as [t2 [E2 [L2 M2]]].
-      { rewrite L1. eapply Fit; eauto. }
+      destruct (put_members_ok (members e) t1 index) as [t2 [E2 [L2 M2]]]; [lia|].
       rewrite E2.
       destruct (IH t2 ok lo shs) as [t3 [ok' [E3 [L3 M3]]]].
       { rewrite L2, L1. exact F'. }
-      { intros i k e' A B. rewrite L2, L1. eapply Fit; eauto. }
       exists t3, ok'. split; [exact E3|]. split; [lia|].
       intros j Hj. eapply set_nth_nil_mono; [exact E1|]. apply M2. apply M3. exact Hj.
     + apply nth_error_None in En. lia.
